@@ -47,6 +47,8 @@ fn run_round(actors: &[Actor], rep: &mut Report) -> Outcome {
                 let input = match a.kind {
                     "session-bash" => json!({"tool": "bash", "args": {"command": stamp_cmd(a.id, "0.08"), "cwd": "."}}).to_string(),
                     "session-timeout" => json!({"tool": "bash", "args": {"command": stamp_cmd(a.id, "0.7"), "cwd": "."}, "timeout_ms": 120}).to_string(),
+                    // a tool that prints a lot: flushing its frames takes longer than the next actor's whole run
+                    "session-bash-noisy" => json!({"tool": "bash", "args": {"command": format!("echo B{0} $(date +%s%N) >> stamps.log; sleep 0.15; seq 1 50000; echo E{0} $(date +%s%N) >> stamps.log", a.id), "cwd": "."}}).to_string(),
                     "session-write" => json!({"tool": "write", "args": {"path": format!("w{}.txt", a.id), "content": "x"}}).to_string(),
                     "session-patch" => json!({"tool": "apply_patch", "args": {"patch": format!("*** Begin Patch\n*** Add File: p{}.txt\n+x\n*** End Patch", a.id)}}).to_string(),
                     "session-ckpt" => json!({"checkpoint": {"action": "create", "label": "l", "files": ["seed.txt"]}}).to_string(),
@@ -200,6 +202,11 @@ pub fn run(opts: &Opts) -> Report {
         if r % 2 == 0 {
             actors[0] = Actor { id: 0, kind: "session-timeout", mutating: true };
             actors[1] = Actor { id: 1, kind: "session-bash", mutating: true };
+        } else {
+            // a noisy tool first, quiet mutating tools queued right behind it
+            actors[0] = Actor { id: 0, kind: "session-bash-noisy", mutating: true };
+            actors[1] = Actor { id: 1, kind: "session-bash", mutating: true };
+            actors[2] = Actor { id: 2, kind: "session-bash", mutating: true };
         }
         rep.evaluations += 1;
         let out = run_round(&actors, &mut rep);
@@ -222,7 +229,7 @@ pub fn run(opts: &Opts) -> Report {
         // oracle 2: exactly one side-effects frame per mutating tool call of a linked run
         for a in &actors {
             let want = match a.kind {
-                "session-bash" | "session-write" | "session-patch" | "session-timeout" => 1,
+                "session-bash" | "session-bash-noisy" | "session-write" | "session-patch" | "session-timeout" => 1,
                 _ => 0, // read-only tools, checkpoint envelopes and tasks log no tool side effects on the thread
             };
             let got = out.frames_per_actor.get(&a.id).copied().unwrap_or(0);
@@ -232,11 +239,11 @@ pub fn run(opts: &Opts) -> Report {
         }
         // oracle 3: the order of side-effects frames equals the real order of the stamped mutations
         let stamped_order: Vec<usize> = {
-            let mut v: Vec<(u128, usize)> = ivs.iter().filter(|(k, _, _)| matches!(actors[*k].kind, "session-bash")).map(|(k, b, _)| (*b, *k)).collect();
+            let mut v: Vec<(u128, usize)> = ivs.iter().filter(|(k, _, _)| matches!(actors[*k].kind, "session-bash" | "session-bash-noisy")).map(|(k, b, _)| (*b, *k)).collect();
             v.sort();
             v.into_iter().map(|(_, k)| k).collect()
         };
-        let logged_order: Vec<usize> = out.thread_side_effects.iter().cloned().filter(|k| actors[*k].kind == "session-bash").collect();
+        let logged_order: Vec<usize> = out.thread_side_effects.iter().cloned().filter(|k| matches!(actors[*k].kind, "session-bash" | "session-bash-noisy")).collect();
         if stamped_order != logged_order {
             rep.oracle_failure("C11|side-effects-order", &format!("side-effects frames in order {logged_order:?}, mutations happened in order {stamped_order:?}"), case.clone());
         }
